@@ -31,6 +31,16 @@ type blEngine struct{}
 
 func (blEngine) Name() string { return "execsim" }
 
+var impostor *simnode.Key
+
+// impostorKey is a key that owns nothing and is on no list.
+func impostorKey() *simnode.Key {
+	if impostor == nil {
+		impostor = simnode.AccountKey(9999)
+	}
+	return impostor
+}
+
 // ---------------------------------------------------------------------------
 // addresses (the harness's own parsing: base58check / hex, no chain33 helpers)
 
@@ -160,6 +170,9 @@ func (blEngine) Generate(prop string, r *simrt.RNG, tier string, run int) *simrt
 		sc.Knobs["eth"] = 1
 	}
 	sc.Knobs["cfgspell"] = int64(r.Intn(8))
+	if r.Chance(1, 2) {
+		sc.Knobs["impostor"] = 1
+	}
 	fund := fundBlock()
 	fund.Sub = append(fund.Sub,
 		simrt.Op{K: "xfer", I: []int64{-1, 5, 1000000000000, 110, 0}},
@@ -444,6 +457,39 @@ func (e blEngine) run(ctx *simrt.Ctx) *simrt.Violation {
 		}
 		blk := b.newBlock(txs)
 		prev := b.tip.StateHash
+		// The transaction hash does not cover the signature: the same body signed by
+		// an uninvolved key has the same hash. Such a copy passing through the node
+		// first (checked like a pool submission, executed in a discarded block; it has
+		// no funds) must not change the verdict on the real one.
+		if sc.Knob("impostor", 0) == 1 {
+			var copies []*types.Transaction
+			for k, t := range info {
+				if strings.HasPrefix(t.shape, "group/") || !strings.Contains(t.touches, "from") {
+					continue
+				}
+				c := types.Clone(txs[k]).(*types.Transaction)
+				c.Signature = nil
+				c.Sign(types.SECP256K1, impostorKey().Priv)
+				if !bytes.Equal(c.Hash(), txs[k].Hash()) {
+					simrt.Failf("the copy signed by another key has another hash")
+				}
+				copies = append(copies, c)
+			}
+			if len(copies) > 0 {
+				ctx.Fault("same_body_signed_by_uninvolved_key_first")
+				msg := b.n.Client.NewMessage("execs", types.EventCheckTx, &types.ExecTxList{StateHash: prev, Txs: copies, BlockTime: blk.BlockTime, Height: blk.Height, Difficulty: uint64(blk.Difficulty), IsMempool: true, ParentHash: blk.ParentHash})
+				if err := b.n.Client.Send(msg, true); err == nil {
+					_, _ = b.n.Client.Wait(msg)
+				}
+				cb := types.Clone(blk).(*types.Block)
+				cb.Txs = copies
+				_, _ = execTxList(b.n, prev, cb)
+				for _, c := range copies {
+					_ = types.CheckTxBlockedAccount(b.cfg, blk.Height, c)
+					_ = types.CheckTxBlockedAccountImmediate(c)
+				}
+			}
+		}
 		raw, err := execTxList(b.n, prev, blk)
 		if err != nil {
 			return ctx.Violate("exec-reply-error", "EventExecTxList", "EventExecTxList answered an error: %v", err)
